@@ -194,6 +194,13 @@ theorem compileGlobal_comm {n : Ast} {prog : Prog} (h : compileGlobal n = .ok pr
   simp only [compileGlobal, getStrList_mapPos h1, bind, Except.bind, pure, Except.pure]
   rfl
 
+theorem compileNonlocal_comm {n : Ast} {prog : Prog} (h : compileNonlocal n = .ok prog) :
+    compileNonlocal (n.mapPos φ) = .ok (prog.map (Instr.mapP φ ψ)) := by
+  simp only [compileNonlocal, bind_ok_iff, pure_ok_iff] at h
+  obtain ⟨names, h1, rfl⟩ := h
+  simp only [compileNonlocal, getStrList_mapPos h1, bind, Except.bind, pure, Except.pure]
+  rfl
+
 theorem compileNamedExpr_comm {n : Ast} {prog : Prog} (hq : n.all (posQ φ ψ) = true)
     (h : compileNamedExpr n = .ok prog) : compileNamedExpr (n.mapPos φ) = .ok (prog.map (Instr.mapP φ ψ)) := by
   simp only [compileNamedExpr, bind_ok_iff, pure_ok_iff] at h
